@@ -61,7 +61,7 @@ Print Assumptions c08_gamespy3_assembly_order_independent.
    response, received in reverse order, give the in-order result *)
 Example c08_ex_gamespy :
   let s3 := fst (gen_s3 5) in
-  let s1 := fst (gen_s1 2) in
+  let s1 := fst (gen_s1 4) in
   (2 <=? length (s3_packets s3))%nat = true /\
   bytes_eqb (show_outcome show_gs3 (fst (gs3_query 1 None (net_init (map Datagram (s3_handshake s3 :: rev (s3_packets s3))) [] []))))
             (show_outcome show_gs3 (Ok (s3_expected s3))) = true /\
